@@ -56,6 +56,9 @@ def run(rep, kf, tier, seed):
     for o in rep.obligations:
         if o.id.startswith("C10x."):
             o.id = "C10." + o.id[5:]
+    # nullability declared at ONE using site (a nullable wrapper around a reference) is not written into the shared component
+    import contracts.refs as cr
+    engine_b.discharge(rep, kf, [cr.property_from_ref_contract(k) for k in ("UnionProperty", "ModelProperty")], "C10", tier, seed)
     from props.common import run_bounded
     run_bounded(rep, kf, "C10", ["model_properties", "equivalent_docs"], tier)
     # parser side of "required": the allOf walk of _process_properties
